@@ -55,6 +55,8 @@ def make_config(cfg):
     from matrix_functions_types import CoupledHigherOrderConfig, CoupledNewtonConfig, EigenConfig, RootInvConfig
     k = cfg[0]
     if k == "eigen":
+        if len(cfg) > 2 and cfg[2]:
+            return EigenConfig(enhance_stability=bool(cfg[1]), eigen_decomp_offload_device=cfg[2])
         return EigenConfig(enhance_stability=bool(cfg[1]))
     if k == "newton":
         return CoupledNewtonConfig(max_iterations=cfg[1], tolerance=cfg[2])
@@ -81,7 +83,7 @@ def _UnknownConfig():
 
 def coq_config(cfg) -> str:
     k = cfg[0]
-    if k == "eigen":
+    if k == "eigen":        # the offload device (cfg[2]) is not part of the model: it must not change anything
         return f"(EigenCfg {coq_bool(bool(cfg[1]))})"
     if k == "newton":
         return f"(NewtonCfg {cfg[1]}%nat {coq_float(cfg[2])})"
@@ -126,6 +128,15 @@ def observe(case: dict, dtype: str = "float64") -> dict:
 
     tdt = getattr(torch, dtype)
     A = torch.tensor(case["A"], dtype=tdt).reshape(case["shape"])
+    layout = case.get("layout")
+    if layout and A.dim() == 2 and A.numel() > 1:
+        if layout == "strided":          # a view into a larger buffer with strides (2*2c, 2)
+            big = torch.full((2 * A.shape[0], 2 * A.shape[1]), float("nan"), dtype=tdt)
+            big[::2, ::2] = A
+            A = big[::2, ::2]
+        elif layout == "transposed":     # column-major storage of the same values
+            A = A.t().contiguous().t()
+    A_before = A.clone()
     root = Fraction(case["p"], case["q"])
     rec: dict = {"eigh": [], "iter": []}
     real_eig = mf.matrix_eigenvalue_decomposition
@@ -156,6 +167,15 @@ def observe(case: dict, dtype: str = "float64") -> dict:
             obs["kind"] = "raise"
             obs["exc"] = type(e).__name__
             obs["msg"] = str(e)[:120]
+        obs["input_mutated"] = not torch.equal(A, A_before)
+        if case.get("twice") and obs["kind"] == "ok":       # a second call in the same process, same tensor object
+            try:
+                X2 = mf.matrix_inverse_root(A, root, make_config(case["cfg"]), epsilon=case["eps"], is_diagonal=case["is_diag"])
+                obs["second_call_differs"] = not torch.equal(torch.nan_to_num(X2), torch.nan_to_num(obs["X"]))
+            except Exception as e:  # noqa
+                obs["second_call_differs"] = True
+            rec["eigh"] = rec["eigh"][:1]
+            rec["iter"] = rec["iter"][:1]
     obs["eigh"] = rec["eigh"]
     obs["iter"] = rec["iter"]
     return obs
@@ -288,6 +308,57 @@ def make_sym(lam: list[float], seed: int, diagonal: bool = False):
 ROOTS = [(1, 1), (2, 1), (3, 1), (4, 1), (8, 1), (3, 2), (4, 3), (5, 2), (2, 3), (8, 3)]
 
 
+ROOTS_EXTRA = [(16, 1), (10, 1), (100, 1), (1, 2), (7, 5), (6, 1)]
+MULTIPLIERS = [1.82, 0.5, 1.5, 3.0, 0.9]
+
+
+def multiplier_root(r: int, mult: float) -> tuple[int, int]:
+    """The root the optimizer passes when EigenConfig.exponent_multiplier is set: Fraction(r / multiplier) - a float turned into a
+    Fraction, i.e. a huge numerator over a power of two."""
+    f = Fraction(r / mult)
+    return f.numerator, f.denominator
+
+
+STRUCTURED = ["constdiag-toeplitz", "rank1-pm", "equicorr", "deadcoord", "diag-nonascending", "identity-multiple", "blockcorr", "circulant"]
+
+
+def structured(rng, n: int, kind: str, scale: float):
+    """Structured symmetric PSD matrices (float64) of size n (n >= 2 where the structure needs it)."""
+    import torch
+    idx = torch.arange(n)
+    d = (idx[:, None] - idx[None, :]).abs()
+    if kind == "constdiag-toeplitz":
+        A = torch.tensor(rng.choice([0.3, 0.5, 0.9]), dtype=torch.float64) ** d
+    elif kind == "circulant":
+        A = torch.tensor(rng.choice([0.2, 0.5]), dtype=torch.float64) ** torch.minimum(d, n - d)
+    elif kind == "rank1-pm":
+        g = torch.tensor([rng.choice([-1.0, 1.0]) for _ in range(n)], dtype=torch.float64)
+        A = torch.outer(g, g)
+    elif kind == "equicorr":
+        A = torch.full((n, n), rng.choice([0.25, 0.5, 6.0 ** -0.5, 0.9]), dtype=torch.float64).fill_diagonal_(1.0)
+    elif kind == "deadcoord":                # a coordinate that never received a gradient: zero row and column
+        A = make_sym(spectrum(rng, n, "psd", 1.0, 10 ** rng.uniform(0, 4)), rng.randrange(1 << 40))
+        k = rng.randrange(n)
+        A[k, :] = 0.0
+        A[:, k] = 0.0
+    elif kind == "diag-nonascending":        # exactly diagonal, entries in descending / mixed order, one repeated
+        vals = sorted([10 ** rng.uniform(-4, 0) for _ in range(n)], reverse=True)
+        if n > 2:
+            vals[1] = vals[0]
+        A = torch.diag(torch.tensor(vals, dtype=torch.float64))
+    elif kind == "identity-multiple":
+        A = torch.eye(n, dtype=torch.float64)
+    elif kind == "blockcorr":
+        r = rng.choice([0.5, 0.75, 0.95])
+        A = torch.eye(n, dtype=torch.float64)
+        for i in range(0, n - 1, 2):
+            A[i, i + 1] = A[i + 1, i] = r
+    else:
+        raise AssertionError(kind)
+    A = (A + A.T) / 2 * scale
+    return A
+
+
 def new_case(A, p, q, cfg, eps, is_diag=False, tag="") -> dict:
     return {"shape": list(A.shape), "A": A.reshape(-1).tolist(), "p": p, "q": q, "cfg": tuple(cfg), "eps": float(eps),
             "is_diag": bool(is_diag), "tag": tag}
@@ -317,12 +388,80 @@ def gen_eigen_cases(rng, count: int, nmax: int = 12) -> list[dict]:
     return cases
 
 
+def gen_targeted_eigen_cases(rng) -> list[dict]:
+    """Input classes named or plainly allowed by C11's quantifier that the random stream hits rarely or never (quantifier audit)."""
+    import torch
+    cases = []
+
+    def add(A, p, q, enh, eps, tag, **extra):
+        c = new_case(A, p, q, ("eigen", enh) + ((extra.pop("offload"),) if "offload" in extra else ()), eps, False, tag)
+        c.update(extra)
+        cases.append(c)
+
+    k = 0
+    # structured matrices, each with both stability settings
+    for kind in STRUCTURED:
+        for n in (2, 3, 4, 7):
+            scale = 10 ** rng.uniform(-6, 6)
+            A = structured(rng, n, kind, scale)
+            p, q = (ROOTS + ROOTS_EXTRA)[k % (len(ROOTS) + len(ROOTS_EXTRA))]
+            k += 1
+            add(A, p, q, k % 2 == 0, scale * 10 ** rng.uniform(-8, -1), "struct:" + kind)
+    for n in (1, 2, 5, 9):
+        scale = 10 ** rng.uniform(-6, 6)
+        # every eigenvalue in [-1e-3*scale, 0]: nothing positive at all
+        lam = [-scale * 1e-3 * rng.random() for _ in range(n)]
+        lam[0] = 0.0 if n > 1 else lam[0]
+        for enh in (False, True):
+            add(make_sym(lam, rng.randrange(1 << 40)), *rng.choice(ROOTS), enh, scale * 10 ** rng.uniform(-9, -2), "nonpositive")
+        # lambda_min exactly at the boundary -1e-3*scale; eps below and above |lambda_min|
+        lam = spectrum(rng, n, "psd", scale, 100.0)
+        lam[-1] = -1e-3 * scale
+        for eps_rel in (1e-5, 1e-3, 1e-1):
+            add(make_sym(lam, rng.randrange(1 << 40)), *rng.choice(ROOTS), k % 2 == 0, scale * eps_rel, "indef-boundary")
+            k += 1
+    # eps regimes relative to |lambda_min| (both sides, close to equality) and eps >= scale
+    for n in (2, 3, 6):
+        scale = 10 ** rng.uniform(-6, 6)
+        lmin = -scale * 10 ** rng.uniform(-8, -4)
+        lam = spectrum(rng, n, "rankdef", scale, 1e3)
+        lam[-1] = lmin
+        A = make_sym(lam, rng.randrange(1 << 40))
+        for f in (0.01, 0.5, 0.999, 1.001, 2.0, 100.0):
+            for enh in (False, True):
+                add(A, *rng.choice(ROOTS), enh, abs(lmin) * f, "eps~|lmin|")
+        for f in (1.0, 30.0, 1e3):
+            add(A, *rng.choice(ROOTS), k % 2 == 0, scale * f, "eps>=scale")
+            k += 1
+    # roots: large, below one, non-dyadic, and Fraction(r / exponent_multiplier) as the optimizer builds it
+    for (p, q) in ROOTS_EXTRA + [multiplier_root(r, m) for r in (2, 4, 8) for m in MULTIPLIERS[:3]]:
+        n = rng.randint(2, 8)
+        scale = 10 ** rng.uniform(-3, 3)
+        kind = rng.choice(["indef", "rankdef", "psd"])
+        A = make_sym(spectrum(rng, n, kind, scale, 10 ** rng.uniform(0, 5)), rng.randrange(1 << 40))
+        add(A, p, q, k % 2 == 0, scale * 10 ** rng.uniform(-5, -1), "root:" + ("multiplier" if q > 1000 else f"{p}/{q}") + ":" + kind)
+        k += 1
+    # memory layout, offload device option, second call on the same tensor
+    for n in (2, 5, 8):
+        for layout in ("strided", "transposed"):
+            scale = 10 ** rng.uniform(-3, 3)
+            A = make_sym(spectrum(rng, n, "indef", scale, 1e4), rng.randrange(1 << 40))
+            add(A, *rng.choice(ROOTS), k % 2 == 0, scale * 1e-5, "layout:" + layout, layout=layout, twice=True)
+            k += 1
+        A = make_sym(spectrum(rng, n, "indef", 1.0, 1e4), rng.randrange(1 << 40))
+        add(A, *rng.choice(ROOTS), k % 2 == 0, 1e-5, "offload:cpu", offload="cpu")
+        add(A, *rng.choice(ROOTS), k % 2 == 1, 1e-5, "twice", twice=True)
+        k += 1
+    return cases
+
+
 def gen_guard_cases(rng) -> list[dict]:
     """numel > 1 and not a square 2-D matrix: every configuration and flag must raise ValueError; root <= 0."""
     import torch
     cases = []
     cfgs = [("eigen", False), ("eigen", True), ("newton", 10, 1e-6), ("ho", 0.0, 10, 1e-8, 3), ("unknown",)]
-    shapes = [(2,), (3,), (7,), (2, 3), (3, 2), (1, 2), (2, 1), (4, 1), (1, 5), (2, 2, 2), (1, 2, 2), (2, 1, 2), (1, 1, 2), (2, 3, 4), (3, 3, 1), (1, 3, 3), (2, 2, 1, 1)]
+    shapes = [(2,), (3,), (7,), (2, 3), (3, 2), (1, 2), (2, 1), (4, 1), (1, 5), (2, 2, 2), (1, 2, 2), (2, 1, 2), (1, 1, 2), (2, 3, 4), (3, 3, 1), (1, 3, 3), (2, 2, 1, 1),
+              (64, 63), (63, 64), (1, 64), (128,), (3, 3, 3), (4, 4, 1), (1, 4, 4), (16, 1, 16)]
     for sh in shapes:
         for cfg in cfgs:
             A = torch.tensor([rng.uniform(0.5, 2.0) for _ in range(math.prod(sh))], dtype=torch.float64).reshape(sh)
@@ -523,7 +662,45 @@ def gen_measure_inputs(rng, thorough: bool):
                     p, q = ROOTS[k % len(ROOTS)]
                     k += 1
                     out.append((A, p, q, eps, rng.random() < 0.5, rng.randrange(1 << 40), dtype, kind))
+    # targeted classes (quantifier audit): structured matrices, nothing-positive spectra, the boundary lambda_min = -1e-3*scale,
+    # eps on both sides of |lambda_min| and >= scale, large / small / multiplier roots, sizes 63 and 64
+    allroots = ROOTS + ROOTS_EXTRA + [multiplier_root(r, m) for r in (2, 4) for m in MULTIPLIERS[:2]]
+    for dtype in ("float32", "float64"):
+        u = U[dtype]
+        for kind in STRUCTURED:
+            for n in ((2, 5, 16, 63) if not thorough else (2, 3, 5, 8, 16, 33, 63, 64)):
+                scale = 10 ** rng.uniform(-6, 6)
+                A = structured(rng, n, kind, scale)
+                p, q = allroots[k % len(allroots)]
+                k += 1
+                out.append((A, p, q, scale * 10 ** rng.uniform(math.log10(64 * u), -1), k % 2 == 0, rng.randrange(1 << 40), dtype, "struct:" + kind))
+        for n in (1, 2, 6, 20, 64):
+            scale = 10 ** rng.uniform(-6, 6)
+            lam = [-scale * 1e-3 * rng.random() for _ in range(n)]
+            out.append((make_sym(lam, rng.randrange(1 << 40)), *ROOTS[k % len(ROOTS)], scale * 10 ** rng.uniform(math.log10(64 * u), -2), k % 2 == 0, rng.randrange(1 << 40), dtype, "nonpositive"))
+            lam = spectrum(rng, n, "psd", scale, 100.0)
+            lam[-1] = -1e-3 * scale
+            A = make_sym(lam, rng.randrange(1 << 40))
+            for eps_rel in (1e-4, 1e-3 * 0.999, 1e-3 * 1.001, 1.0, 50.0):
+                out.append((A, *allroots[k % len(allroots)], scale * eps_rel, k % 2 == 0, rng.randrange(1 << 40), dtype, "indef-boundary" if eps_rel < 1 else "eps>=scale"))
+                k += 1
     return out
+
+
+def float32_guard_outcomes(rng) -> tuple[int, list]:
+    """Shape guard in float32 (the tie runs in float64): outcome class only."""
+    import torch
+    bad = []
+    cnt = 0
+    for sh in [(2,), (2, 3), (3, 2), (2, 2, 2), (1, 2), (64, 63), (5, 1, 5)]:
+        for cfg, isd in [(("eigen", False), False), (("eigen", True), True), (("newton", 5, 1e-6), False), (("ho", 0.0, 5, 1e-8, 3), True), (("unknown",), False)]:
+            A = torch.ones(sh, dtype=torch.float64)
+            c = new_case(A, 2, 1, cfg, 0.1, isd, "nonsquare-f32")
+            o = observe(c, dtype="float32")
+            cnt += 1
+            if not (o["kind"] == "raise" and o.get("exc") == "ValueError"):
+                bad.append((c, o))
+    return cnt, bad
 
 
 # ------------------------------------------------------------------------------------------------
@@ -544,7 +721,7 @@ def run(ck: Check) -> None:
     thorough = ck.tier == "thorough"
 
     # ---- 1. the tie: model (binary64, recorded eigh answer) vs implementation ----------------------
-    cases = gen_eigen_cases(ck.rng, 2800 if thorough else 400) + gen_guard_cases(ck.rng)
+    cases = gen_eigen_cases(ck.rng, 2800 if thorough else 400) + gen_targeted_eigen_cases(ck.rng) + gen_guard_cases(ck.rng)
     observations = [observe(c) for c in cases]
     agree_col = [agree_term(c, o) for c, o in zip(cases, observations)]
     query_col = [query_term(c, o) for c, o in zip(cases, observations)]
@@ -591,6 +768,18 @@ def run(ck: Check) -> None:
                    "agree": agree_s[i], "query": query_s[i], **rep(i),
                    "theorems_not_transferring": ["C11_eigen_root_sym", "C11_eigen_root_pd", "C11_eigen_root_eig_le", "C11_eigen_root_commutes",
                                                  "C11_eigen_root_equivariant", "C11_shape_guard", "C11_nonpositive_root_rejected"]}, no_failing_input=True)
+
+    state_fail = [i for i, o in enumerate(observations) if o.get("input_mutated") or o.get("second_call_differs")]
+    if state_fail:
+        i = state_fail[0]
+        ck.report(None, f"matrix_inverse_root {'modified its input tensor' if observations[i].get('input_mutated') else 'returned a different matrix on a second call with the same tensor'} "
+                        f"(shape {cases[i]['shape']}, cfg {cases[i]['cfg']}, layout {cases[i].get('layout')})",
+                  {"kind": "property-fails", "predicate": "repeatability / input left untouched", "n_failing": len(state_fail), **rep(i)})
+    n_f32_guard, f32_guard_bad = float32_guard_outcomes(ck.rng)
+    if f32_guard_bad:
+        c, o = f32_guard_bad[0]
+        ck.report(None, f"float32 input of shape {c['shape']} cfg {c['cfg']} is_diagonal={c['is_diag']} not rejected with ValueError (got {o['kind']} {o.get('exc', '')})",
+                  {"kind": "property-fails", "predicate": "shape_guard (float32)", "case": {k: c[k] for k in ("shape", "A", "p", "q", "cfg", "eps", "is_diag", "tag")}})
 
     # ---- 2. measured clauses (float32 / float64, n <= 64) -------------------------------------------
     minputs = gen_measure_inputs(ck.rng, thorough)
@@ -678,6 +867,68 @@ def run(ck: Check) -> None:
             "double_precision_retry": "ok" if not retry_problems else retry_problems,
         },
     })
+    # ---- quantifier audit: measured counts of every input class the property names or plainly allows -------
+    def lmin_of(i):
+        o, c = observations[i], cases[i]
+        if not o["eigh"]:
+            return None
+        lm = float(o["eigh"][-1][1].min())
+        return lm - c["eps"] if (c["cfg"][0] == "eigen" and c["cfg"][1]) else lm
+    eig_idx = [i for i, c in enumerate(cases) if c["cfg"][0] == "eigen" and not c["is_diag"] and c["tag"] not in ("nonsquare", "root<=0", "numel1") and observations[i]["kind"] == "ok"]
+    lm = {i: lmin_of(i) for i in eig_idx}
+    neg = [i for i in eig_idx if lm[i] is not None and lm[i] < 0]
+    audit = {
+        "tie/size_1": sum(1 for i in eig_idx if case_n(cases[i]) == 1),
+        "tie/size_2..12": sum(1 for i in eig_idx if case_n(cases[i]) >= 2),
+        "tie/zero_matrix": sum(1 for i in eig_idx if cases[i]["tag"].startswith("zero")),
+        "tie/rank_deficient": sum(1 for i in eig_idx if cases[i]["tag"].startswith("rankdef")),
+        "tie/lambda_min<0": len(neg),
+        "tie/lambda_min<0_and_eps<|lambda_min|": sum(1 for i in neg if cases[i]["eps"] < -lm[i]),
+        "tie/lambda_min<0_and_eps>|lambda_min|": sum(1 for i in neg if cases[i]["eps"] > -lm[i]),
+        "tie/eps_within_1%_of_|lambda_min|": sum(1 for i in neg if abs(cases[i]["eps"] / -lm[i] - 1) < 0.011),
+        "tie/lambda_min=-1e-3*scale_boundary": sum(1 for i in eig_idx if cases[i]["tag"] == "indef-boundary"),
+        "tie/no_positive_eigenvalue": sum(1 for i in eig_idx if cases[i]["tag"] == "nonpositive"),
+        "tie/eps>=scale": sum(1 for i in eig_idx if cases[i]["tag"] == "eps>=scale"),
+        "tie/exactly_diagonal_input_without_flag": sum(1 for i in eig_idx if "diag" in cases[i]["tag"]),
+        **{"tie/struct:" + k: sum(1 for i in eig_idx if cases[i]["tag"] == "struct:" + k) for k in STRUCTURED},
+        "tie/enhance_stability_on": sum(1 for i in eig_idx if cases[i]["cfg"][1]),
+        "tie/enhance_stability_off": sum(1 for i in eig_idx if not cases[i]["cfg"][1]),
+        "tie/root<1": sum(1 for i in eig_idx if cases[i]["p"] < cases[i]["q"]),
+        "tie/root>=10": sum(1 for i in eig_idx if cases[i]["p"] >= 10 * cases[i]["q"]),
+        "tie/root_not_binary32_exact": sum(1 for i in eig_idx if (cases[i]["p"] / cases[i]["q"]) not in (1, 2, 4, 8, 16, 0.5)),
+        "tie/root=Fraction(r/exponent_multiplier)": sum(1 for i in eig_idx if cases[i]["q"] > 1000),
+        "tie/non_contiguous_input": sum(1 for c in cases if c.get("layout")),
+        "tie/eigen_decomp_offload_device=cpu": sum(1 for c in cases if len(c["cfg"]) > 2 and c["cfg"][0] == "eigen"),
+        "tie/second_call_same_tensor": sum(1 for c in cases if c.get("twice")),
+        "tie/input_checked_unmodified": len(cases),
+        "guard/non_square_2D": sum(1 for c in cases if c["tag"] == "nonsquare" and len(c["shape"]) == 2),
+        "guard/1D": sum(1 for c in cases if c["tag"] == "nonsquare" and len(c["shape"]) == 1),
+        "guard/3D_and_4D": sum(1 for c in cases if c["tag"] == "nonsquare" and len(c["shape"]) >= 3),
+        "guard/with_is_diagonal=True": sum(1 for c in cases if c["tag"] == "nonsquare" and c["is_diag"]),
+        "guard/each_of_5_configurations": min(sum(1 for c in cases if c["tag"] == "nonsquare" and c["cfg"][0] == k) for k in ("eigen", "newton", "ho", "unknown")),
+        "guard/float32": n_f32_guard,
+        "guard/root<=0": sum(1 for c in cases if c["tag"] == "root<=0"),
+        "guard/numel_1_any_shape": sum(1 for c in cases if c["tag"] == "numel1"),
+        **{f"measured/{dt}/n={n}": sum(1 for m in minputs if m[6] == dt and m[0].shape[0] == n) for dt in ("float32", "float64") for n in (1, 2, 63, 64)},
+        **{f"measured/{dt}/n>=32": sum(1 for m in minputs if m[6] == dt and m[0].shape[0] >= 32) for dt in ("float32", "float64")},
+        **{"measured/" + k: sum(1 for m in minputs if m[7] == k) for k in ("zero", "rankdef", "indef", "psd", "repeated", "nonpositive", "indef-boundary", "eps>=scale")},
+        "measured/structured": sum(1 for m in minputs if m[7].startswith("struct:")),
+        "measured/root<1": sum(1 for m in minputs if m[1] < m[2]),
+        "measured/root=Fraction(r/exponent_multiplier)": sum(1 for m in minputs if m[2] > 1000),
+        "measured/enhance_stability_on": sum(1 for m in minputs if m[4]),
+        "retry_double_precision(True and False, injected float32 failure)": 2,
+    }
+    ck.coverage["quantifier_audit"] = audit
+    ck.coverage["not_exercised"] = {
+        "float16 / bfloat16 inputs": "outside the quantifier (float32/float64); torch.linalg.eigh has no CPU kernel for them",
+        "numel = 0 shapes": "the property speaks about inputs with more than one element (and numel == 1); the model marks them OutOfScope",
+        "inputs that are not symmetric": "outside the quantifier (finite symmetric matrices); equivariance inputs are symmetrised after forming P A P^T",
+        "roots so small that eps^(-1/r) exceeds the dtype range (e.g. r = 1/4 with eps = 1e-12 in float32)": "overflow is then the correct answer of the formula; roots down to 1/2 are exercised",
+        "eps below the dtype resolution of the scale": "excluded by the quantifier",
+        "eigen_decomp_offload_device other than cpu, CUDA tensors": "no accelerator in the sandbox",
+        "n > 12 in the model tie": "vm_compute cost; sizes up to 64 are covered by the measured stream and the certified checker only up to 12",
+        "is_diagonal=True on the eigen configuration with a non-diagonal matrix": "the flag is computed by the caller with check_diagonal; a wrong flag is outside the contract",
+    }
     ck.assumptions += [
         "torch.linalg.eigh returns (L, Q) with A = Q diag(L) Q^T, Q^T Q = Q Q^T = I (Section hypothesis eigh_contract; residuals measured in this run, see MEASURED_not_proved)",
         "torch.pow on positive bases is the real power function (fpow of the real instance is Rpower)",
